@@ -223,6 +223,18 @@ def gen_shipped(rnd, classes=None, dyn=None, oracles=('clock', 'member', 'loci')
                 oracles=list(oracles), preattr=(rnd.randrange(1 << 30) if rnd.random() < 0.25 else None))
 
 
+def gen_compfix(rnd, dyn=None):
+    """two named fixed-recovery epidemics over one network (they share the undecorated infection_time attribute)"""
+    nodes, edges = rand_net(rnd, 3, 7, kind=rnd.choice(['er', 'complete', 'star']))
+    procs = []
+    for nm in 'ab':
+        cls = rnd.choice(['SIS_FixedRecovery', 'SIR_FixedRecovery', 'SIS_FixedRecovery'])
+        pr = shipped_params(cls, rnd)
+        procs.append(dict(cls=cls, name=nm, params={f"{k}@{nm}": v for k, v in pr.items()}))
+    return dict(procs=procs, seq='list', dyn=dyn or rnd.choice(['sto', 'syn']), nodes=nodes, edges=edges, maxT=rnd.choice([3.0, 6.0]), seed=rnd.random(),
+                specials=[0.25, 0.5], pspecial=0.1, oracles=['clock', 'member', 'loci', 'diagram'])
+
+
 def gen_forced(rnd, dyn=None):
     base = gen_shipped(rnd, classes=['SIR', 'SIS', 'SIRS', 'SIR_FixedRecovery', 'SIS_FixedRecovery', 'Opinion'], dyn=dyn,
                        oracles=('clock', 'member', 'loci', 'diagram', 'forest'), net=rand_net(rnd, 3, 7, kind=rnd.choice(['er', 'complete', 'path', 'star'])))
@@ -484,10 +496,12 @@ def final_diagram(d, ex, res, md, spec):
         if isinstance(q, ScriptProc): continue
         cls = type(q).__name__
         tot = 0
+        # (several instances in one sequence report under the same undecorated keys and the sequence keeps the later one — C11; what this
+        #  instance itself reports is what C07 speaks about)
+        mine = q.results() if len(ex.cms) > 1 else res
         for c in q._compartments:
-            k = q.decoratedNameInInstance(c) if False else c
             true = sum(1 for n in g.nodes() if g.nodes[n].get(q.COMPARTMENT) == c)
-            if res.get(c) != true: return f"{cls}: results report {res.get(c)} nodes in {_short(q, c)}, the network has {true}"
+            if mine.get(c) != true: return f"{cls}: results report {mine.get(c)} nodes in {_short(q, c)}, the network has {true}"
             tot += true
         if tot != g.order(): return f"{cls}: compartment sizes sum to {tot}, the network has {g.order()} nodes"
         if spec['dyn'] == 'sto' and md[Dynamics.TIME] < q.maximumTime() and not d._postedEventFinder and cls in ('SIR', 'SIS', 'SIRS', 'SIR_VariableInfection'):
@@ -845,9 +859,12 @@ def run_seqtree(spec):
             else:
                 toks.append('('); ps.append(mk(it['seq'], it['named'])); toks.append(')')
         return ProcessSequence({f"p{j}": p for j, p in enumerate(ps)} if named else ps)
-    top = mk(spec['tree'], spec['named'])
-    res = top.results()
-    leaves = [p._i for p in top.allProcesses()]
+    try:
+        top = mk(spec['tree'], spec['named'])
+        res = top.results()
+        leaves = [p._i for p in top.allProcesses()]
+    except Exception as ex_:
+        return ["SEQ " + ' '.join(toks)], [f"EXC {type(ex_).__name__}"], dict(events=0, oracle=[('compose', f"building / reading the sequence raised {type(ex_).__name__}: {ex_}")], exc=str(ex_), handlers=[], tags=['seqtree'])
     out = f"leaves=[{', '.join(map(str, leaves))}] maxT={top.maximumTime()} eq={'true' if top.atEquilibrium(0.0) else 'false'} res=[{', '.join(f'({k}, {res[k]})' for k in sorted(res))}]"
     viol = []
     # the property's statement, directly
